@@ -6,6 +6,7 @@ import (
 	"fmt"
 	"go/token"
 	"math/big"
+	"os"
 	"go/types"
 	"sort"
 	"strings"
@@ -155,7 +156,12 @@ func (e *FnEnc) flushFacts() {
 	e.rangeFacts = nil
 }
 
-func (e *FnEnc) note(s string) { e.assumptions[s] = true }
+func (e *FnEnc) note(s string) {
+	if !e.assumptions[s] && os.Getenv("GOVC_DEBUG") != "" {
+		fmt.Fprintln(os.Stderr, "note:", s)
+	}
+	e.assumptions[s] = true
+}
 
 func (e *FnEnc) define(name, sort, term string) string {
 	q := e.decl(name, sort)
@@ -211,9 +217,23 @@ func (e *FnEnc) heapIn(st *State, name string) string {
 }
 
 func (e *FnEnc) havocAll() {
+	// immutable fields (checked syntactically, immut.go) keep their values on objects that already exist;
+	// the allocation set only grows
+	imm := e.prog.immutableArrays(e.sorter)
+	olds := make([]string, len(imm))
+	for i, a := range imm {
+		olds[i] = e.heapArr(a.name, a.sort)
+	}
+	allocBefore := e.heapArr("$alloc", "(Array Int Bool)")
 	e.nepoch++
 	e.st.heap = map[string]string{}
 	e.st.epoch = e.nepoch
+	e.st.heap["$alloc"] = allocBefore
+	e.growAlloc()
+	for i, a := range imm {
+		nw := e.heapArr(a.name, a.sort)
+		e.assume(fmt.Sprintf("(forall ((r Int)) (! (=> (select %s r) (= (select %s r) (select %s r))) :pattern ((select %s r))))", allocBefore, nw, olds[i], nw))
+	}
 	if li := e.curLoopTrack(); li != nil {
 		for _, l := range li {
 			l.modAll = true
